@@ -20,11 +20,16 @@ import time
 
 ROOT = os.path.dirname(os.path.dirname(os.path.abspath(__file__)))
 COQ = os.path.join(ROOT, "coq")
-HARNESS = os.path.join(ROOT, "harness")
-BUILD = os.path.join(ROOT, "build")
+# VERIF_ALT (development aid, set only by driver/mutant_check.py): run the check against a private
+# copy of the harness whose path dependencies point to a patched scratch worktree of /repo, with
+# private build / evidence / replay directories, so that seeded changes can be tested in parallel
+# without ever touching /repo. Registered checks never set it.
+ALT = os.environ.get("VERIF_ALT")
+HARNESS = os.path.join(ALT or ROOT, "harness")
+BUILD = os.path.join(ALT or ROOT, "build")
 TARGET = os.path.join(BUILD, "target")
-EVIDENCE = os.path.join(ROOT, "evidence")
-REPLAYS = os.path.join(ROOT, "replays")
+EVIDENCE = os.path.join(ALT or ROOT, "evidence")
+REPLAYS = os.path.join(ALT or ROOT, "replays")
 CORPUS = os.path.join(ROOT, "corpus")
 GUARD = "barter_rs_barter_rs_verif"
 NPROC = min(16, os.cpu_count() or 4)
@@ -53,9 +58,10 @@ def sh(cmd, timeout, cwd=None, env=None):
 
 
 class Lock:
-    def __init__(self, name, shared=False):
-        os.makedirs(BUILD, exist_ok=True)
-        self.path = os.path.join(BUILD, "lock." + name)
+    def __init__(self, name, shared=False, root=None):
+        d = os.path.join(root, "build") if root else BUILD
+        os.makedirs(d, exist_ok=True)
+        self.path = os.path.join(d, "lock." + name)
         self.shared = shared
 
     def __enter__(self):
@@ -151,7 +157,7 @@ def coq_makefile():
 
 def coq_make(targets, timeout=1500):
     """full .vo build of the given targets (never -vos). returns (ok, output)"""
-    with Lock("coq"):
+    with Lock("coq", root=ROOT):
         coq_makefile()
         rc, out = sh(["make", "-j%d" % NPROC] + targets, timeout, cwd=COQ)
     return rc == 0, out
@@ -386,7 +392,7 @@ def run_check(cfg, tier, seed):
     """Holds a shared lock on /repo for the duration of the check so that driver/with_patch.py
     (which temporarily patches /repo under an exclusive lock while testing a seeded change) never
     changes the sources under a running check."""
-    if os.environ.get("VERIF_REPO_LOCK_HELD") == "1":
+    if os.environ.get("VERIF_REPO_LOCK_HELD") == "1" or ALT:
         return _run_check(cfg, tier, seed)
     with Lock("repo", shared=True):
         return _run_check(cfg, tier, seed)
